@@ -109,6 +109,73 @@ Theorem C02_same_instant_at_most_one :
 Proof. exact same_instant_at_most_one. Qed.
 Print Assumptions C02_same_instant_at_most_one.
 
+(* the statement speaks of websocket connections: a presentation may be on the path of ANOTHER topic
+   (flag true; serveWs exchanges the code before it looks at the token). Every history of such
+   presentations with distinct codes lets in at most one connection per code ... *)
+Theorem C02_at_most_one_connection_per_code :
+  forall t life ops c, fresh (map snd ops) -> (admissions c (init t life) ops <= 1)%nat.
+Proof. exact admissions_at_most_once. Qed.
+Print Assumptions C02_at_most_one_connection_per_code.
+
+(* ... a wrong-path presentation never lets anybody in ... *)
+Theorem C02_wrong_path_never_joins :
+  forall c o x, is_win c o (view_out true x) = false.
+Proof. exact wrong_path_never_joins. Qed.
+Print Assumptions C02_wrong_path_never_joins.
+
+(* ... and a code that has been presented once - successfully or not, on whatever path - is refused
+   ever after, in every history (single use in the strong sense: presenting spends the code) *)
+Theorem C02_presented_code_dead :
+  forall t0 life ops1 c ops2, submits c ops2 = 0%nat ->
+    snd (step (final (init t0 life) (ops1 ++ Exchange c :: ops2)) (Exchange c)) = ORefused.
+Proof. exact presented_code_dead. Qed.
+Print Assumptions C02_presented_code_dead.
+
+(* every interleaving IS a history: the final store and the outputs of a scheduled run are those of the
+   sequential run of the operations in the order the schedule took them - so every theorem above that
+   is stated over histories (expiry, purge, frames) holds for every schedule of concurrent threads *)
+Theorem C02_schedule_is_a_history :
+  forall sched s progs,
+    fst (run_sched s progs sched) = final s (trace_ops (snd (run_sched s progs sched))) /\
+    map snd (snd (run_sched s progs sched)) = snd (run s (trace_ops (snd (run_sched s progs sched)))).
+Proof. exact run_sched_is_run. Qed.
+Print Assumptions C02_schedule_is_a_history.
+
+(* sweeps, exchanges and purges running concurrently (any number of threads, any schedule, no thread
+   issuing codes): what is left afterwards is explainable by the operations that completed - a code
+   whose exchange succeeded is gone, no code of a purged booking is left, and a live code that nobody
+   presented, of a booking nobody purged, is still there with its own entry *)
+Theorem C02_concurrent_final_state_consistent :
+  forall t0 life pre progs sched,
+    let s := final (init t0 life) pre in
+    let r := run_sched s progs sched in
+    (forall c, submits c (concat progs) = 0%nat) ->
+    (forall c, (1 <= trace_wins c (snd r))%nat -> clk c (store (fst r)) = None) /\
+    (forall b, In (Purge b) (trace_ops (snd r)) -> forall c e, clk c (store (fst r)) = Some e -> bk e <> b) /\
+    (forall c e, clk c (store s) = Some e -> (now s <= exp e)%Z -> forallb (spares c e) (concat progs) = true ->
+       clk c (store (fst r)) = Some e).
+Proof. exact concurrent_final_state_consistent. Qed.
+Print Assumptions C02_concurrent_final_state_consistent.
+
+(* non-vacuity for the five above: a wrong-path presentation spends the code (the later right-path one is
+   refused) while another code is let in; a sweeper, an exchanger and a purger interleaved leave exactly
+   the untouched code *)
+Example C02_witness_view_and_concurrency :
+  let h := [(false, Submit 1 10 7); (false, Submit 2 11 7); (true, Exchange 1); (false, Exchange 1); (false, Exchange 2)]%N in
+  fresh (map snd h) /\
+  run_view (init 100 30) h = [OCode 1; OCode 2; ORefused; ORefused; OTok 11 7]%N /\
+  admissions 1%N (init 100 30) h = 0%nat /\ admissions 2%N (init 100 30) h = 1%nat /\
+  let pre := [Submit 1 10 7; Submit 2 11 8; Submit 3 12 9]%N in
+  let progs := [[Sweep; Sweep; Sweep]; [Exchange 1]; [Purge 8]]%N in
+  let r := run_sched (final (init 100 30) pre) progs [0; 1; 0; 2; 0]%nat in
+  (forall c, submits c (concat progs) = 0%nat) /\
+  trace_wins 1%N (snd r) = 1%nat /\ In (Purge 8%N) (trace_ops (snd r)) /\
+  forallb (spares 3%N (mkentry 12 9 130)) (concat progs) = true /\
+  map fst (store (fst r)) = [3%N].
+Proof.
+  vm_compute. repeat split; try (repeat constructor; cbn; intuition discriminate); try tauto.
+Qed.
+
 (* non-vacuity: a concrete fresh history exercising every operation; the F1 history is refused; three
    presenters of one live code under a scrambled schedule give one winner *)
 Example C02_witness :
